@@ -519,13 +519,13 @@ Proof.
     apply flags_of_nodup. unfold trace. rewrite rlocs_scope. exact R.
 Qed.
 
-(* the diagnostics of the file agree, as a set, with the reference on every Laid chunk of the fragment outside the
-   class later_elsewhere (multi_local_order: repaired) *)
+(* the diagnostics of the file agree, as a set, with the reference on every Laid chunk of the fragment (the classes
+   multi_local_order and later_elsewhere are repaired: no class guard is left) *)
 Theorem usage_diags_agree_laid_only W c b all others :
-  in_fragment b = true -> LS.laid_b W b = true -> later_elsewhere c b others = false ->
+  in_fragment b = true -> LS.laid_b W b = true ->
   (forall n, name_mem n all = name_mem n (gnames (s1_gmap (first_pass c b))) || name_mem n others) ->
-  forall x, In x (go_diags c b all) <-> In x (spec_diags c b others).
+  forall x, In x (go_diags c b all others) <-> In x (spec_diags c b others).
 Proof.
-  intros Hf Hl Hle Hall. destruct (usage_laid_distinct W b Hf Hl) as [Hd Hfl].
-  exact (usage_diags_agree_laid W c b all others Hf Hl Hfl Hd Hle Hall).
+  intros Hf Hl Hall. destruct (usage_laid_distinct W b Hf Hl) as [Hd Hfl].
+  exact (usage_diags_agree_laid W c b all others Hf Hl Hfl Hd Hall).
 Qed.
